@@ -1109,6 +1109,9 @@ pub fn c11_case(seed: u64, idx: u64) -> CaseOut {
             }
         }
     }
+    small.retain(|&c| c < size); // e.g. the empty file: its expanded form is the version byte alone, capacity 1 suffices
+    small.sort();
+    small.dedup();
     for cap in small {
         match guarded(|| decompress_zstd(&z, cap)) {
             Run::Panic(p) => out.failures.push(fail(format!("decompress-panic {}", panic_signature(&p)), format!("decompress_zstd(cap={cap}) panicked: {p}"))),
@@ -1475,26 +1478,32 @@ pub fn run(ctx: &Ctx, prop: &str) -> (Summary, String, String) {
         }
         "C13" => {
             let n = ctx.n(500, 12000);
-            let next = std::sync::atomic::AtomicU64::new(0);
-            let acc = std::sync::Mutex::new(Vec::new());
-            std::thread::scope(|sc| {
-                for _ in 0..ctx.threads {
-                    sc.spawn(|| loop {
-                        let i = next.fetch_add(1, std::sync::atomic::Ordering::Relaxed);
-                        if i >= n {
-                            break;
-                        }
-                        let v = c13_case(seed, i, ctx.thorough());
-                        acc.lock().unwrap().push((i, v));
-                    });
+            // in slices, absorbed in index order (deterministic, bounded memory)
+            let mut lo = 0u64;
+            while lo < n {
+                let hi = (lo + 1024).min(n);
+                let next = std::sync::atomic::AtomicU64::new(lo);
+                let acc = std::sync::Mutex::new(Vec::new());
+                std::thread::scope(|sc| {
+                    for _ in 0..ctx.threads {
+                        sc.spawn(|| loop {
+                            let i = next.fetch_add(1, std::sync::atomic::Ordering::Relaxed);
+                            if i >= hi {
+                                break;
+                            }
+                            let v = c13_case(seed, i, ctx.thorough());
+                            acc.lock().unwrap().push((i, v));
+                        });
+                    }
+                });
+                let mut v = acc.into_inner().unwrap();
+                v.sort_by_key(|x| x.0);
+                for (_, cs) in v {
+                    for c in cs {
+                        s.absorb(c);
+                    }
                 }
-            });
-            let mut v = acc.into_inner().unwrap();
-            v.sort_by_key(|x| x.0);
-            for (_, cs) in v {
-                for c in cs {
-                    s.absorb(c);
-                }
+                lo = hi;
             }
             // literal runs at the staging-buffer sizes, fragmented and with a late sink fault
             let lr = literal_run_files(&mut Rng::new(seed ^ 0x11e), ctx.thorough());
